@@ -438,6 +438,22 @@ where
                 );
                 if enqueued {
                     self.piece_refs.push(piece);
+                } else {
+                    // The entry cannot be written (too large, or the buffer is full): older copies of the key,
+                    // indexed on disk or still queued in this flusher, are superseded by it and must not be
+                    // served anymore. Treat the dropped write as a delete of the key with the same sequence.
+                    let hash = piece.hash();
+                    let stats = self
+                        .indexer
+                        .insert_tombstone(hash, sequence)
+                        .map(|addr| InvalidStats {
+                            block: addr.block,
+                            size: bits::align_up(PAGE, addr.len as usize),
+                        });
+                    self.tombstone_infos.push(TombstoneInfo {
+                        tombstone: Tombstone { hash, sequence },
+                        stats,
+                    });
                 }
                 report(enqueued);
                 self.submit_queue_size.fetch_sub(estimated_size, Ordering::Relaxed);
